@@ -213,8 +213,12 @@ func c10Sign(r *core.Run) {
 	}
 	for _, e := range ledger {
 		if strings.HasPrefix(e.Kind, "stub-cannot-parse") {
-			r.Notes["internal_error"] = "TSA stub: " + e.Kind
-			return
+			// what relic sent to an authority is not a timestamp request at all
+			// (the stub parses relic's requests with the standard library; every
+			// request of the unchanged tree parses): the authority cannot answer
+			// it, whatever its scripted behaviour was
+			r.Failf("C10.request-malformed", "unparseable", "relic sent an authority a request that does not parse as a timestamp request (%s)", e.Kind)
+			continue
 		}
 		r.Fault("tsa-" + e.Kind)
 	}
